@@ -82,7 +82,7 @@ func c03(c *Ctx) {
 	r.Rule("C03.early-bytes", "the byte stream handed to the frame reader is the peer's stream: bytes buffered by the HTTP server before the upgrade are replayed first and completely (same rule as C17.brnetconn)")
 	c.borrow(c17, map[string]string{"C17.brnetconn": "C03.early-bytes"})
 	r.Rule("C03.control-frames", "control frames of every legal size between fragments are read and dispatched to their handler without touching the message state (same rules as C08.read-buffer, C08.dispatch)")
-	c.borrow(c08, map[string]string{"C08.read-buffer": "C03.control-frames", "C08.dispatch": "C03.control-frames"})
+	c.borrow(c08, map[string]string{"C08.read-buffer": "C03.control-frames", "C08.dispatch": "C03.control-frames", "C08.defaults": "C03.control-frames"})
 	r.Rule("C03.inflater-exclusive", "an inflater returned to flateReaderPool is forgotten by the wrapper in the same step (never used or returned twice), so two connections never share one decompressor")
 	r.Assume("bufio.Reader.Read returns 0 <= n <= len(p)")
 
@@ -104,6 +104,8 @@ func c03(c *Ctx) {
 	rd.owners("C03.final-flag", rd.readFinal, "(*Conn).advanceFrame", "newConn")
 	rd.remainingRule("C03.remaining")
 	rd.eofProvenance("C03.eom")
+	rd.unexpectedEOFProvenance("C03.eom")
+	rd.acceptsEveryLength("C03.remaining")
 	rd.skipLoop("C03.skip-loop")
 	rd.inflateWrap("C03.inflate-iff-rsv1")
 	if c.poolTypestate("C03.inflater-exclusive", "(*flateReadWrapper).Close", "(*flateReadWrapper).Read") < 1 {
@@ -433,9 +435,15 @@ func (rd *reader) parserRules(ruleLen, ruleMask, ruleFin, ruleDec string) {
 		okL, whyL = false, fmt.Sprintf("only %d accepted paths recognised", nAcc)
 	}
 	r.Check(ruleLen, shortFn(rd.advance), "extended-length-decoding", rd.advance.Pos(), okL, whyL)
-	r.Check(ruleMask, shortFn(rd.advance), "key-copy-and-position-reset", rd.advance.Pos(), okM, whyM)
-	r.Check(ruleFin, shortFn(rd.advance), "readFinal-is-FIN-of-data-frames", rd.advance.Pos(), okF, whyF)
-	r.Check(ruleDec, shortFn(rd.advance), "readDecompress-is-RSV1", rd.advance.Pos(), okD, whyD)
+	if ruleMask != "" {
+		r.Check(ruleMask, shortFn(rd.advance), "key-copy-and-position-reset", rd.advance.Pos(), okM, whyM)
+	}
+	if ruleFin != "" {
+		r.Check(ruleFin, shortFn(rd.advance), "readFinal-is-FIN-of-data-frames", rd.advance.Pos(), okF, whyF)
+	}
+	if ruleDec != "" {
+		r.Check(ruleDec, shortFn(rd.advance), "readDecompress-is-RSV1", rd.advance.Pos(), okD, whyD)
+	}
 
 }
 
